@@ -234,7 +234,7 @@ def run(ck):
     t0 = time.time()
     ncases, ndiff = R.run_stream(ck, stream(), 'graph', PROP_TEXT, 'C09')
     vf.log('[C09] correspondence: %d cases, %d differences, %.1fs' % (ncases, ndiff, time.time() - t0))
-    ck.extra['exhaustive'] = ('EXHAUSTIVE: all digraphs (self loops included) x kind assignments x edge kinds (declared / `.output`), '
+    ck.extra['exhaustive_scope'] = ('EXHAUSTIVE: all digraphs (self loops included) x kind assignments x edge kinds (declared / `.output`), '
                               'node 0 requested, on <=2 nodes in one and in two mutually importing projects' +
                               ('; 3 and 4 nodes sampled' if quick else
                                ' and on 3 nodes in one project (238 328 shapes, one representative per swap of the two non-requested nodes); ALL 65 536 digraphs on 4 nodes with build '
